@@ -126,8 +126,17 @@ class SignTable:
                 tn, v = tn[2][0], 1 - v
             if recognised(tn):
                 continue
-            if tn[0] == "eq":
-                pair = {tn[1], tn[2]}
+            if tn[0] == "app" and tn[1] == "Ne" and len(tn[2]) == 2 and v in (0, 1):
+                tn, v = ("app", "Eq", tn[2]), 1 - v
+            if tn[0] == "eq" or (tn[0] == "app" and tn[1] == "Eq" and len(tn[2]) == 2 and tn[2][0][0] != "int" and tn[2][1][0] != "int"):
+                pair = {tn[1], tn[2]} if tn[0] == "eq" else set(tn[2])
+                # comparisons of the wrapped integers (`a.0 == b.0`) are comparisons of the newtypes
+                def unwrap0(t_):
+                    return t_[1] if (t_[0] == "proj" and t_[2] == ("field", 0)) else None
+                if all(unwrap0(x) is not None for x in pair) and len(pair) == 2:
+                    cand = {unwrap0(x) for x in pair}
+                    if self.sf("address") in cand or cnt_t in pair:
+                        pair = cand if self.sf("address") in cand else pair
                 if self.sf("address") in pair:
                     other = (pair - {self.sf("address")}).pop()
                     kinds = [k for k in ADDRESSED if other == self.mfield(k, 0)]
@@ -644,7 +653,7 @@ def bus_loop(chk, prog):
             elif v[0] == "adt" and v[3] == "Ok" and v[4][0][0] == "adt" and v[4][0][3] == "Some":
                 last = calls[-1] if calls else None
                 inner = norm(v[4][0][4][0])
-                okl = last is not None and inner == norm(("proj", ("proj", last[3], ("downcast", 1, "Some")), ("field", 0, "?")))
+                okl = last is not None and inner in (norm(("proj", ("proj", last[3], ("downcast", 1, "Some")), ("field", 0, "?"))), ("unwrap", norm(last[3])))
                 earlier_none = all(any(t == ("discr", norm(c[3])) and val == 0 for t, val in dec) for c in calls[:-1]) or widened
                 chk.ob("C14.O4", "Ok(Some(r)) returns the reply of the first sign that answered, unchanged", okl and earlier_none, key="vbus:some-shape", where=where,
                        detail=fmt_term(v))
